@@ -107,6 +107,69 @@ func c23Lift(f *core.FuncInfo, v *types.Var, mk c23VarFact, depth int) func(core
 	}
 }
 
+// ---------------------------------------------------------------------------
+// body carrier (merged duplicates)
+
+// c23Carrier returns the function that carries the body of the reader f, and the variable of that function
+// that holds f's key parameter. It is f itself when f makes the library lookup. When f makes none and every
+// exit of f hands up, unchanged, the results of one call of the same declared module function h that receives
+// the key parameter as a plain argument (`return getCloned(db.underlying, key)`: the two copies of a body
+// merged into a shared helper), the facts about f's results are the facts about h's results, with the key
+// bound to h's parameter; bounded depth. The lookup predicate decides what "the library lookup" is.
+func c23Carrier(f *core.FuncInfo, hasLookup func(*core.FuncInfo) bool, depth int) (*core.FuncInfo, *types.Var) {
+	key := f.Param(0)
+	for d := 0; d < depth; d++ {
+		if key == nil || hasLookup(f) || c23Reassigned(f, key) {
+			break
+		}
+		var h *core.FuncInfo
+		var hk *types.Var
+		rps := f.ReturnPoints()
+		ok := len(rps) > 0
+		for _, rp := range rps {
+			r := rp.Node().(*ast.ReturnStmt)
+			if len(r.Results) != 1 {
+				ok = false
+				break
+			}
+			call, isCall := ast.Unparen(r.Results[0]).(*ast.CallExpr)
+			if !isCall {
+				ok = false
+				break
+			}
+			obj, _ := f.P.ResolveCallee(f.Info(), call)
+			fn, _ := obj.(*types.Func)
+			g := f.P.FuncOf(fn)
+			if g == nil || g == f || (h != nil && g != h) {
+				ok = false
+				break
+			}
+			if sig, _ := fn.Type().(*types.Signature); sig == nil || sig.Variadic() {
+				ok = false
+				break
+			}
+			var pk *types.Var
+			n := 0
+			for i, a := range call.Args {
+				if av := varOf(f, a); av != nil && av == key {
+					pk = g.Param(i)
+					n++
+				}
+			}
+			if n != 1 || pk == nil || c23Reassigned(g, pk) || (hk != nil && hk != pk) {
+				ok = false
+				break
+			}
+			h, hk = g, pk
+		}
+		if !ok || h == nil {
+			break
+		}
+		f, key = h, hk
+	}
+	return f, key
+}
+
 // c23Reassigned: is the variable written after its declaration (in g or in a literal of g), or is its address taken?
 func c23Reassigned(g *core.FuncInfo, v *types.Var) bool {
 	for _, h := range append([]*core.FuncInfo{g}, allLits(g)...) {
@@ -185,6 +248,12 @@ func c23EvalBytes(f *core.FuncInfo, e ast.Expr, env map[*types.Var]c23Bytes, dep
 			return c23Bytes{OK: true, Fresh: true, NonNil: true}
 		}
 		return bad
+	case *ast.TypeAssertExpr:
+		// x.([]byte): the bytes held by the interface value x
+		if x.Type == nil {
+			return bad
+		}
+		return c23EvalBytes(f, x.X, env, depth)
 	case *ast.SliceExpr:
 		// x[:n:n] — content of x (the rules using this trust n == len(x) as the append idiom does), capacity capped
 		if x.Slice3 && x.Low == nil && x.High != nil && x.Max != nil && types.ExprString(x.High) == types.ExprString(x.Max) {
@@ -265,11 +334,58 @@ func c23EvalBytes(f *core.FuncInfo, e ast.Expr, env map[*types.Var]c23Bytes, dep
 // one final return) under env and returns the value of the result. Anything else makes the value unknown.
 func c23EvalBody(g *core.FuncInfo, env map[*types.Var]c23Bytes, depth int) c23Bytes {
 	bad := c23Bytes{}
+	// d := make([]byte, len(s)) … copy(d, s): d is pending (zero bytes of s's length) until the copy fills it
+	pending := map[*types.Var]c23Bytes{}
+	sizedBy := func(e ast.Expr) (c23Bytes, bool) {
+		mk := isCallTo(g, e, "builtin.make")
+		if mk == nil || len(mk.Args) != 2 {
+			return bad, false
+		}
+		ln, ok := ast.Unparen(mk.Args[1]).(*ast.CallExpr)
+		if !ok || calleeName(g, ln) != "builtin.len" || len(ln.Args) != 1 {
+			return bad, false
+		}
+		src := c23EvalBytes(g, ln.Args[0], env, depth)
+		return src, src.OK
+	}
+	sameParts := func(a, b []c23Atom) bool {
+		if len(a) != len(b) {
+			return false
+		}
+		for i := range a {
+			if a[i] != b[i] {
+				return false
+			}
+		}
+		return true
+	}
 	for i, st := range g.Body.List {
 		switch s := st.(type) {
+		case *ast.ExprStmt:
+			cp := isCallTo(g, s.X, "builtin.copy")
+			if cp == nil || len(cp.Args) != 2 {
+				return bad
+			}
+			dv := varOfRaw(g, cp.Args[0])
+			want, isPending := pending[dv]
+			src := c23EvalBytes(g, cp.Args[1], env, depth)
+			if dv == nil || !isPending || !src.OK || !sameParts(want.Parts, src.Parts) {
+				return bad
+			}
+			delete(pending, dv)
+			env[dv] = c23Bytes{OK: true, Fresh: true, NonNil: true, Parts: src.Parts}
 		case *ast.AssignStmt:
 			if (s.Tok != token.DEFINE && s.Tok != token.ASSIGN) || len(s.Lhs) != len(s.Rhs) {
 				return bad
+			}
+			if len(s.Lhs) == 1 {
+				if v := varOfRaw(g, s.Lhs[0]); v != nil {
+					if src, ok := sizedBy(s.Rhs[0]); ok {
+						delete(env, v)
+						pending[v] = src
+						continue
+					}
+				}
 			}
 			vals := make([]c23Bytes, len(s.Rhs))
 			for j, r := range s.Rhs {
@@ -286,6 +402,7 @@ func c23EvalBody(g *core.FuncInfo, env map[*types.Var]c23Bytes, depth int) c23By
 				if !vals[j].OK {
 					return bad
 				}
+				delete(pending, v)
 				env[v] = vals[j]
 			}
 		case *ast.DeclStmt:
@@ -320,6 +437,11 @@ func c23EvalBody(g *core.FuncInfo, env map[*types.Var]c23Bytes, depth int) c23By
 		case *ast.ReturnStmt:
 			if i != len(g.Body.List)-1 || len(s.Results) != 1 {
 				return bad
+			}
+			if v := varOfRaw(g, s.Results[0]); v != nil {
+				if _, unfilled := pending[v]; unfilled {
+					return bad
+				}
 			}
 			return c23EvalBytes(g, s.Results[0], env, depth)
 		default:
